@@ -1,5 +1,5 @@
 (** C07 — apply_predictor with a PNG predictor (10..15) inverts the PNG forward filters for every
-    valid Colors / BitsPerComponent / Columns; the TIFF predictor 2 is refuted on the pinned tree. *)
+    valid Colors / BitsPerComponent / Columns; the TIFF predictor 2 is refuted for the pre-fix definition. *)
 From OxVerif Require Import Base.Util C07.Filters C07.Predictor C07.Codecs C07.ProofsBasic C07.ProofsPredictor.
 Require Import Lia ZifyBool.
 
@@ -24,7 +24,7 @@ Theorem png_predictor_roundtrip pr columns colors bpc early tags x :
   = Some x.
 Proof.
   intros Hpr Hco Hcl Hbp Hsz Ht Hx Hl.
-  unfold apply_predictor. replace (pr =? 1) with false by lia.
+  unfold apply_predictor. replace (pr =? 1) with false by lia. replace (pr =? 2) with false by lia.
   replace ((10 <=? pr) && (pr <=? 15)) with true by lia.
   unfold png_advanced. cbn [p_columns p_colors p_bpc zdef].
   assert (colors * bpc < 4294967296 /\ bpc * colors = colors * bpc) as [Hcb Hcomm] by nia.
@@ -58,9 +58,11 @@ Example png_predictor_roundtrip_nonvacuous :
     (mkP (Some 15%Z) (Some 2%Z) (Some 3%Z) (Some 8%Z) None) = Some [1;2;3;4;5;6; 9;8;7;6;5;4; 250;0;3;1;255;7].
 Proof. vm_compute. reflexivity. Qed.
 
-(** pinned tree: /Predictor 2 (TIFF) is returned as-is, so horizontally differenced data is not restored *)
+(** the tree before fix_tiff_predictor2.patch ([apply_predictor_pinned]): /Predictor 2 (TIFF) was returned
+    as-is, so horizontally differenced data was not restored.  The positive theorem for the repaired code is
+    [tiff_predictor_roundtrip] in ProofsTiff.v. *)
 Theorem tiff_predictor_roundtrip_refuted :
-  exists x ps, apply_predictor (tiff_forward8 1 1 4 x) 2 ps = Some (tiff_forward8 1 1 4 x) /\ tiff_forward8 1 1 4 x <> x.
+  exists x ps, apply_predictor_pinned (tiff_forward8 1 1 4 x) 2 ps = Some (tiff_forward8 1 1 4 x) /\ tiff_forward8 1 1 4 x <> x.
 Proof.
   exists [1; 1; 1; 1], (mkP (Some 2%Z) (Some 4%Z) None None None). split; [reflexivity|]. vm_compute. discriminate.
 Qed.
